@@ -143,6 +143,19 @@ def run : Runner
     | .ok a => pure { model := match AddressPubKeyHash X a with
         | some h => s!"{Bytes.tok (ScriptAddress X h)},{Bytes.tok (EncodeAddress X h)},{netBits h}"
         | none => "none" }
+  -- SetFormat changes how the key serialises (and with it the script payload, the P2PKH form and the string) and
+  -- nothing else; the typed accessors agree with the payload (no "!..." marker)
+  | "pkfmt", [_, net, ser], _ => do
+    let net ← nets[(← nat? net)]?
+    let ser ← bytes? ser
+    match newPubKey X ser net with
+    | .ok (.pubKey f0 pt id) =>
+      let one (f : Nat) : String :=
+        let a := Addr.pubKey f pt id
+        let pkh := match AddressPubKeyHash X a with | some h => Bytes.tok (EncodeAddress X h) | none => "none"
+        s!"{f},{Bytes.tok (ScriptAddress X a)},{Bytes.tok (EncodeAddress X a)},{Bytes.tok (String X a)},{pkh}"
+      pure { model := " ".intercalate (toString f0 :: [0, 1, 2, 0].map one), prop := "spec" }
+    | _ => pure { model := "ctorerr" }
   | "conc", _, impl =>
     -- address construction/encoding are functions of their arguments: concurrent use must agree with sequential use
     pure { model := "ok", prop := if impl == "ok" then "ok" else "violated:results depend on concurrent use " ++ impl }
